@@ -153,6 +153,20 @@ APPEND = {
     ("C03_rmw_gap_before_fix", "rmw_gap_before_fix", "computed: with the rule before fix 01ecff8 loads order a store between an RMW's source and the RMW's own store"),
     ("C03_rmw_gap_refused", "rmw_gap_refused", "computed: the model's current functions refuse both orders of that scenario"),
     ("C03_search_closure_clean", "search_closure_clean", "computed, exhaustive (4 threads x 3 steps, 3 threads x 4 steps after store | store ; fetch_add): with the model's current functions no modification-order edge is lost, no two clocks are equal, every RMW store immediately follows its source, and every state is closed"),
+ ]), ("LV.AtomicFacts LV.AtomicCoherence LV.AtomicCoRR LV.AtomicClosure", "THE SAME FOR THE MODEL'S CURRENT FUNCTIONS ON ALL RUNS, RMWs included (AtomicClosure.v): the invariant survives the RMW-atomicity closure of fix 01ecff8. Witness carried by the invariant: a ranking of the live stores that extends the modification order and in which every RMW store immediately follows the store it read", [
+    ("C03_reach_model_good", "reach_model_good", "the invariant holds in every state reachable by any sequence of loads, stores, RMWs and synchronisations of any number of threads (machine steps = the model's atomic_load / atomic_store / atomic_rmw)"),
+    ("C03_rmw_atomicity_stable", "rmw_atomicity_stable", "RMW ATOMICITY AS AN INVARIANT: in every reachable state every live RMW store is strictly mo-after the store it read, and no live store is strictly between them"),
+    ("C03_mlts_never_none_model", "mlts_never_none_model", "loom's `assert_ne!(mo_i, mo_j)` never fires"),
+    ("C03_run_stable_model", "run_stable_model", "an edge of the modification order between live stores is never lost"),
+    ("C03_CoRR_CoWR_model", "CoRR_CoWR_model", "CoRR / CoWR in happens-before form"),
+    ("C03_CoRR_CoWR_rmw_model", "CoRR_CoWR_rmw_model", "an RMW never reads a store that was ever mo-before another"),
+    ("C03_CoWW_CoRW_model", "CoWW_CoRW_model", "a new store is mo-after everything its thread knows"),
+    ("C03_CoRR_same_thread_model", "CoRR_same_thread_model", "read-read coherence of one thread, arbitrary steps of arbitrary threads in between"),
+    ("C03_CoWR_same_thread_model", "CoWR_same_thread_model", "write-read coherence"),
+    ("C03_CoRW_same_thread_model", "CoRW_same_thread_model", "read-write coherence"),
+    ("C03_CoWW_same_thread_model", "CoWW_same_thread_model", "write-write coherence"),
+    ("C03_close_model_closed", "close_model_closed", "the fuel of the closure (4 x ring size) suffices: every productive round adds an ordered pair, there are at most 21"),
+    ("C03_reach_model_example", "reach_model_example", "non-vacuity: both runs of the former D19 scenario (they contain an RMW) end in reachable states"),
  ])],
  "C02": [("LV.AtomicFacts LV.AtomicCoherence", "Nothing allowed is pruned without a reason: the candidate set is never empty and contains every mo-maximal store (AtomicCoherence.v)", [
     ("C02_mo_maximal_is_candidate", "mo_maximal_is_candidate", "a live store with no mo-later live store is always a candidate"),
